@@ -527,6 +527,27 @@ def check_assembly(ctx, repo):
         lit = 'is_literal' in gt
         for s in stores:
             st = 'is_literal=%s: %s' % (lit, s.text())
+            sval = s.value
+            # the expression kept as a component of a record (a tuple, a namedtuple built in place):
+            # judged by the component that holds it -- the one made of the chunk itself
+            comps = None
+            if isinstance(sval, ast.Tuple):
+                comps = list(sval.elts)
+            elif isinstance(sval, ast.Call) and isinstance(sval.func, ast.Name) and sval.func.id in repo.records() and not sval.keywords:
+                comps = list(sval.args)
+            if comps is not None:
+                hold = [c for c in comps if any(isinstance(x, ast.Name) and x.id == 'string' for x in ast.walk(c)) and not (isinstance(c, ast.Call) and call_name(c) == 'len')]
+                if len(hold) == 1:
+                    sval = hold[0]
+                else:
+                    ctx.undecided(rule, ins, st, 'the expression is kept inside a record: cannot tell which component is the expression', s.lineno, clause='a')
+                    continue
+
+            class _S:
+                pass
+            s_ = _S()
+            s_.value, s_.name, s_.lineno = sval, s.name, s.lineno
+            s = s_
             if lit:
                 if call_name(s.value) in ('re.escape', 'escape') and canon(s.value.args[0]) == 'string':
                     ctx.holds(rule, ins, st, 'literal chunks are escaped', s.lineno, clause='a')
